@@ -23,6 +23,7 @@ for n, cs in ((3, 2), (2, 1)):
 prop("C09",
      residual="decided bounded: the interlace permutation kernel; region/stride addressing and first-write fill of GRreadimage/GRwriteimage for images "
               "<= 4x4, pixel sizes 1..3 bytes, over a ghost H layer (c09_gr_ext.py); decided per call (proved): GRwritelut/GRgetlutinfo bookkeeping.  "
+              "Round 3 (c09_grinfo.py): GRreqimageil/GRreqlutil/GRgetnluts/GRluttoref (proved), GRgetiminfo, GRcreate, GRreadlut in the three interlaces for constant small palettes (bounded).  "
               "NOT decided: write-side interlace other than pixel, metadata persistence (GRIupdatemeta/GRIupdateRIG/GRend), compressed and chunked "
               "images, number types > 2 bytes per component, images larger than the stated bounds, requests reaching outside the image (no range "
               "check in mfgr.c: outside C09's quantifier)",
